@@ -793,6 +793,15 @@ impl Board {
     pub const fn verif_en_passant_file(&self) -> Option<u8> {
         self.en_passant_file
     }
+
+    /// Verification accessor: remembered earlier positions, each repeated as often as
+    /// it is counted.
+    pub fn verif_remembered_keys(&self) -> Vec<ZKey> {
+        self.position_history
+            .iter()
+            .flat_map(|(key, count)| std::iter::repeat(*key).take(usize::from(*count)))
+            .collect()
+    }
 }
 
 impl fmt::Display for Board {
